@@ -100,4 +100,5 @@ def run(ctx):
 
 def replay(ctx, violation):
     viols, sample = scenario(ctx)
+    ctx.cleanup()
     return {"violated": bool(viols), "violations": viols, "observed": sample}
